@@ -184,11 +184,9 @@ class NumpyInterpreter:
 
         finally:
             # discard non-permanent per-step state
+            from dagrt.utils import is_state_variable
             for name in list(self.context.keys()):
-                if (
-                        not name.startswith("<state>")
-                        and not name.startswith("<p>")
-                        and name not in ["<t>", "<dt>"]):
+                if not is_state_variable(name):
                     del self.context[name]
 
     def register_function(self, name, f):
